@@ -151,6 +151,8 @@ class Loader:
         return p + ".py"
 
     def is_repo_module(self, modname):
+        if modname in self.modules:
+            return True
         return modname.split(".")[0] == "msmart" and os.path.exists(self.path_of(modname))
 
     def module(self, modname) -> ModuleInfo:
